@@ -158,7 +158,7 @@ func hashMsiDir(cdf *comdoc.ComDoc, parent *comdoc.DirEnt, d io.Writer) error {
 	sortMsiFiles(files)
 	for _, item := range files {
 		name := item.Name()
-		if name == msiDigitalSignature || name == msiDigitalSignatureEx {
+		if parent.Type == comdoc.DirRoot && (name == msiDigitalSignature || name == msiDigitalSignatureEx) {
 			continue
 		}
 		switch item.Type {
@@ -190,7 +190,7 @@ func prehashMsiDir(cdf *comdoc.ComDoc, parent *comdoc.DirEnt, d io.Writer) error
 	prehashMsiDirent(parent, d)
 	for _, item := range files {
 		name := item.Name()
-		if name == msiDigitalSignature || name == msiDigitalSignatureEx {
+		if parent.Type == comdoc.DirRoot && (name == msiDigitalSignature || name == msiDigitalSignatureEx) {
 			continue
 		}
 		switch item.Type {
